@@ -36,6 +36,7 @@ def run(ctx):
     _round6(ctx)
     _round7(ctx)
     _round8(ctx)
+    _round10(ctx)
 
 
 def _run_main(ctx):
@@ -174,3 +175,10 @@ def _round8(ctx):
     from rules import arms as A
     with ctx.rule('R02.10', 'a publish through an Exchange handle names the exchange that was declared: the declare variants return the handle of their own exchange (shared with C12)', floor=3) as r:
         A.include(ctx, r, 'c12', 'R12.1', pick=('exchange_declare:returns', 'exchange_declare_nowait:returns', 'exchange_declare_passive:returns'))
+
+
+def _round10(ctx):
+    """Rules of other properties that are necessary conditions of this one too (found by seeding round 10: two cooperating sites, indirection)."""
+    from rules import arms as A
+    with ctx.rule('R02.11', "every frame of a message reaches the write path: each wake-up of a channel's (edge-triggered) hand-off queue reads it until it is empty (shared with C01)", floor=1) as r:
+        A.include(ctx, r, 'c01', 'R01.12', pick=('handle_channel_readable:until-empty',))
